@@ -60,6 +60,15 @@ fn path_str(p: &syn::Path) -> String {
 #[derive(Default)]
 struct Refs { paths: BTreeSet<String>, macros: BTreeSet<String>, uses: BTreeSet<String>, binders: BTreeSet<String> }
 impl<'ast> Visit<'ast> for Refs {
+    // built-in attributes (doc, allow, inline, must_use, repr, ..) are not name-resolved paths; the arguments of
+    // #[derive(..)] are (derive macro names)
+    fn visit_attribute(&mut self, a: &'ast syn::Attribute) {
+        if a.path().is_ident("derive") {
+            if let Ok(ps) = a.parse_args_with(syn::punctuated::Punctuated::<syn::Path, syn::Token![,]>::parse_terminated) {
+                for p in ps.iter() { self.paths.insert(path_str(p)); }
+            }
+        }
+    }
     fn visit_path(&mut self, p: &'ast syn::Path) { self.paths.insert(path_str(p)); syn::visit::visit_path(self, p); }
     fn visit_macro(&mut self, m: &'ast syn::Macro) {
         self.macros.insert(path_str(&m.path));
